@@ -880,6 +880,28 @@ def m_ref_partial_eq(ctx):
     return eng.call_then(ctx.st, target, [ra, rb], call_stash(ctx), cont, ctx.callee)
 
 
+def m_option_scalar_eq(ctx):
+    """<Option<int> as PartialEq>::eq / ne (args by reference): same variant and, for Some, equal payloads."""
+    eng = ctx.eng
+    self_ty, _ = generic_args(ctx.callee)
+    ps = type_params(strip_lifetimes(self_ty or ""))
+    inner = ps[0].strip() if ps else None
+    if inner is None or scalar_kind(inner) is None:
+        return eng.uninterpreted(ctx.st, ctx.frame, ctx.dest, ctx.dest_ty, ctx.ret_bb, ctx.callee, ctx.norm,
+                                 ctx.args, ctx.site)
+    a = eng.deref(ctx.args[0])
+    b = eng.deref(ctx.args[1])
+    if a.ty is None:
+        a.ty = "Option<%s>" % inner
+    if b.ty is None:
+        b.ty = "Option<%s>" % inner
+    ta, tb = eng.tag_of(a, ctx.st), eng.tag_of(b, ctx.st)
+    va = eng.scalar(eng.field(eng.downcast(a, "Some"), 0, inner), inner)
+    vb = eng.scalar(eng.field(eng.downcast(b, "Some"), 0, inner), inner)
+    eq = z3.And(ta == tb, z3.Or(ta == bv64(0), va == vb))
+    return ctx.ret(mk_bool(eq if ctx.norm.endswith("::eq") else z3.Not(eq)))
+
+
 def m_derived_ne(ctx):
     """<T as PartialEq>::ne for a crate type with derived eq: !eq."""
     eng = ctx.eng
@@ -969,5 +991,7 @@ def install(eng):
     M["String::as_str"] = m_string_deref
     M["<String as Add>::add"] = m_string_add
     M["<Vec as Extend>::extend"] = m_vec_extend
+    M["<Option as PartialEq>::eq"] = m_option_scalar_eq
+    M["<Option as PartialEq>::ne"] = m_option_scalar_eq
     R.append((re.compile(r"<&+\w+ as PartialEq>::(eq|ne)"), m_ref_partial_eq))
     R.append((re.compile(r"<(?!str\b|String\b|&)\w+ as PartialEq>::ne"), m_derived_ne))
